@@ -366,7 +366,53 @@ class MixtureNormalNll(Spec):
         return res
 
 
-UNITS = [MixtureNormalNll(), NormalNll(), NormalJac(), NormalBoth(), WeibullLogSurvival(), WeibullLogHazard(), WeibullNll(),
+class BernoulliNll(Spec):
+    """BernoulliFamily._nll(x, p): at every entry that counts, minus the library's Bernoulli log-density of the stored value x[e]
+    under p[e] (torch.distributions.Bernoulli.log_prob, an uninterpreted function here; its closed form is checked by the stand-in),
+    the weight of x passed through unchanged, and nothing stored at an entry without weight influences the result (two runs)."""
+    target = DIST + ":BernoulliFamily._nll"
+
+    def configs(self):
+        return [dict(weighted=w) for w in (True, False)]
+
+    def setup(self, cx, cfg):
+        from leaspy.variables.distributions import BernoulliFamily
+        x = STensor.sym(cx, "x", (n, v, f))
+        w = STensor.sym(cx, "w", (n, v, f)) if cfg["weighted"] else None
+        p_ = STensor.sym(cx, "p", (n, v, f))
+        xw = WT(x, w)
+        return dict(args=(BernoulliFamily, xw, p_), x=x, w=w, p=p_, xw=xw)
+
+    def pre(self, cx, st):
+        if st["w"] is None:
+            return []
+        wi = st["w"].fresh_idx(cx, "w")
+        return [("weights are non-negative (invariant of WeightedTensor)", z3.ForAll(list(wi), st["w"].fn(wi) >= 0))]
+
+    def post(self, cx, st, out):
+        from pyvc.tensor import F_BERN_LOGP
+        r = out.value
+        ok = isinstance(r, SymObj) and isinstance(r.f.get("value"), STensor) and r.f["value"].ndim == 3
+        res = [("a weighted tensor with the layout of x", z3.BoolVal(bool(ok)))]
+        if not ok:
+            return res
+        res.append(("weight of x passed through", z3.BoolVal(r.f["weight"] is st["w"])))
+        idx = st["x"].fresh_idx(cx, "e")
+        counted = st["w"].fn(idx) != 0 if st["w"] is not None else z3.BoolVal(True)
+        res.append(("at every entry that counts (non-zero weight): minus the Bernoulli log-density of the stored value", z3.ForAll(list(idx), z3.Implies(
+            z3.And(st["x"].in_range(idx), counted), r.f["value"].fn(idx) == -F_BERN_LOGP(st["x"].fn(idx), st["p"].fn(idx))))))
+        if st["w"] is not None:
+            # ... and what is stored at an entry without weight is not looked at: a second run with other numbers there gives the same result
+            x2 = STensor.sym(cx, "x_other", st["x"].shape_)
+            cx.assume(z3.ForAll(list(idx), z3.Implies(st["w"].fn(idx) != 0, x2.fn(idx) == st["x"].fn(idx))))
+            r2 = cx.it.call(resolve(self.target), (st["args"][0], WT(x2, st["w"]), st["p"]), {})
+            ok2 = isinstance(r2, SymObj) and isinstance(r2.f.get("value"), STensor)
+            res.append(("the result does not depend on what is stored at entries without weight",
+                        z3.ForAll(list(idx), z3.Implies(st["x"].in_range(idx), r2.f["value"].fn(idx) == r.f["value"].fn(idx))) if ok2 else z3.BoolVal(False)))
+        return res
+
+
+UNITS = [BernoulliNll(), MixtureNormalNll(), NormalNll(), NormalJac(), NormalBoth(), WeibullLogSurvival(), WeibullLogHazard(), WeibullNll(),
          ReparamNu(), ReparamNuSources(), ExpNegNLogNu()]
 CALLEES = []
 ASSUMPTIONS = [
